@@ -2,7 +2,10 @@
 (* Table specification for C26: every line of trace.ndjson is one call of the real SelectBeacons
    recorded by harness/cmd/beaconsel: candidates c (sequence of link sequences, ordered by length,
    links are abstract integers), k, whether the call panicked, and the returned candidates as
-   1-based indices into c (0 = not one of the candidates).
+   1-based indices into c (0 = not one of the candidates).  via = "direct", or the Store / CoreStore
+   wrapper (BeaconsToPropagate, SegmentsToRegister) through which the algorithm was reached: then c is
+   the candidate list the fake beacon DB holds for that wrapper's usage (and source) and k the
+   BestSetSize of that wrapper's policy - every policy has a different one.
 
    Monitor: the returned sequence is one of BeaconSelOps!Select(c, k); a panic is a violation.  Which
    of several equally diverse, equally long remaining candidates is taken is VERIF-DRIFT only.  *)
@@ -13,7 +16,9 @@ VARIABLE l
 vars == <<l>>
 R == Trace[l]
 
-Chk(ok, key) == IF ok THEN TRUE ELSE PrintT(<<"VERIF-BAD", l, key>>)
+\* cases reached through a store wrapper carry its name in the key
+Chk(ok, key) == IF ok THEN TRUE
+                ELSE PrintT(<<"VERIF-BAD", l, (IF R.ev = "sel" /\ R.via # "direct" THEN R.via \o ":" ELSE "") \o key>>)
 Drift(ok, key) == IF ok THEN TRUE ELSE PrintT(<<"VERIF-DRIFT", l, key>>)
 
 \* abstract class of a case for the key
